@@ -22,3 +22,4 @@ pub open spec fn eq(a: int, b: int) -> int { if b > 0 { a / b } else { -(a / (-b
 pub open spec fn R_mul(a: int, b: int, f: int) -> int { (a * b) / p2(f) }
 pub open spec fn R_div(a: int, b: int, f: int) -> int { tz(a * p2(f), b) }
 pub open spec fn R_conv(b: int, fs: int, fd: int) -> int { (b * p2(fd)) / p2(fs) }
+pub open spec fn abs_(a: int) -> int { if a < 0 { -a } else { a } }
